@@ -58,7 +58,7 @@ def model_ctor(ctx, N, ctor, got):
 
 def c_walk(ctx, args):
     N, ctor, steps = args
-    M = ctx.model
+    M = None if ctx.search else ctx.model
     try:
         s = make_state(ctx, N, ctor)
     except Exception as e:
